@@ -1,62 +1,109 @@
 //@inject src/shared/tzif.rs
-//! C18 experiments
+//! C18 / C03: `TzifOwned::find_or_create_designation` (src/shared/tzif.rs) builds the designation table faithfully: the
+//! range it returns spells exactly the requested abbreviation (no trailing NUL), an existing entry is re-used (the
+//! first one, whole entries only - neither a prefix nor a suffix of a longer entry counts), a new entry is appended
+//! NUL-terminated and nothing that was there before changes.
+//!
+//! Bounded stand-ins (String / str::find are outside what Kani decides symbolically), never counted as proved.
+//! Measured (Kani 0.68): the variant parked in c17_tzif.rs did not finish because the appended bytes forced a
+//! reallocation of the String (`String::from("AB\0CD\0")` has capacity == length; 337 s for a 2-byte table, > 600 s for
+//! the 6-byte one).  With spare capacity in the table (no reallocation on append; the function's result does not
+//! depend on the capacity) the same harness takes 13 s.  Needle alternatives inside one harness must all have the
+//! same length: a symbolic choice among string literals of different lengths makes CBMC's model of the
+//! `push_str` memcpy copy arbitrary bytes (spurious failure, reproduced without any jiff code).  Symbolic table
+//! and needle *contents* (4 + 2 symbolic letters) did not finish in 600 s.
 use super::*;
 use alloc::string::String;
 use alloc::vec::Vec;
 use crate::shared::{TzifFixed, TzifTransitionsOwned};
 
+/// a TzifOwned whose designation table has room for the appended entry (capacity 16)
 fn mk(designations: &str) -> TzifOwned {
+    let mut d = String::with_capacity(16);
+    d.push_str(designations);
     TzifOwned {
-        fixed: TzifFixed { name: None, version: b'2', checksum: 0, designations: String::from(designations), posix_tz: None },
+        fixed: TzifFixed { name: None, version: b'2', checksum: 0, designations: d, posix_tz: None },
         types: Vec::new(),
         transitions: TzifTransitionsOwned { timestamps: Vec::new(), civil_starts: Vec::new(), civil_ends: Vec::new(), infos: Vec::new() },
     }
 }
 
-//@harness c18_v1
-//@target x
-//@prop C18
+//@harness c18_designation_ab_cd
+//@target shared::TzifOwned::find_or_create_designation (src/shared/tzif.rs)
+//@prop C18 C03 C17
 //@tier quick
 //@features alloc
 //@timeout 600
-//@bounded x
-//@doc x
+//@bounded designation table "AB\0CD\0" (concrete, capacity 16), needle in {AB,CD,EF}
+//@doc Some((a,b)) => designations[a..b] == needle (no trailing NUL), existing entries are re-used, a new entry is appended NUL-terminated; never None
 #[kani::proof]
-#[kani::unwind(6)]
-fn c18_v1() {
-    let mut tz = mk("A\0");
-    let which: bool = kani::any();
-    let needle = if which { "A" } else { "B" };
+#[kani::unwind(12)]
+fn c18_designation_ab_cd() {
+    let mut tz = mk("AB\0CD\0");
+    let which: u8 = kani::any(); kani::assume(which < 3);
+    let needle = if which == 0 { "AB" } else if which == 1 { "CD" } else { "EF" };
     let r = tz.find_or_create_designation(needle);
     match r {
         Some((a, b)) => {
             let (a, b) = (usize::from(a), usize::from(b));
             assert!(&tz.fixed.designations[a..b] == needle);
-            if which { assert!(a == 0 && b == 1); } else { assert!(a == 2 && b == 3 && tz.fixed.designations.len() == 4); }
+            if which == 0 { assert!(a == 0 && b == 2); }
+            if which == 1 { assert!(a == 3 && b == 5); }
+            if which == 2 { assert!(a == 6 && b == 8 && tz.fixed.designations.len() == 9); }
         }
         None => assert!(false),
     }
 }
 
-//@harness c18_v2
-//@target x
-//@prop C18
+//@harness c18_designation_len2
+//@target shared::TzifOwned::find_or_create_designation (src/shared/tzif.rs)
+//@prop C18 C03 C17
 //@tier quick
 //@features alloc
 //@timeout 600
-//@bounded x
-//@doc x
+//@bounded designation table "AB\0CDE\0" (concrete, capacity 16), 2-byte needle in {AB, CD (prefix of an entry), DE (suffix of an entry), EF (absent)}
+//@doc Some((a,b)) => designations[a..b] == needle; "AB" is found at 0..2 and the table is unchanged; a prefix or suffix of the entry "CDE" is NOT taken for the entry: the needle is appended at 7..9 followed by NUL; the first 7 bytes never change; never None
 #[kani::proof]
 #[kani::unwind(12)]
-fn c18_v2() {
-    let mut tz = mk("AB\0CD\0");
-    let needle = "EF";
+fn c18_designation_len2() {
+    let mut tz = mk("AB\0CDE\0");
+    let which: u8 = kani::any(); kani::assume(which < 4);
+    let needle = match which { 0 => "AB", 1 => "CD", 2 => "DE", _ => "EF" };
     let r = tz.find_or_create_designation(needle);
     match r {
         Some((a, b)) => {
             let (a, b) = (usize::from(a), usize::from(b));
             assert!(&tz.fixed.designations[a..b] == needle);
-            assert!(a == 6 && b == 8 && tz.fixed.designations.len() == 9);
+            if which == 0 { assert!(a == 0 && b == 2 && tz.fixed.designations.len() == 7); }
+            else { assert!(a == 7 && b == 9 && tz.fixed.designations.len() == 10 && tz.fixed.designations.as_bytes()[9] == 0); }
+            assert!(&tz.fixed.designations[..7] == "AB\0CDE\0");
+        }
+        None => assert!(false),
+    }
+}
+
+//@harness c18_designation_len3
+//@target shared::TzifOwned::find_or_create_designation (src/shared/tzif.rs)
+//@prop C18 C03 C17
+//@tier quick
+//@features alloc
+//@timeout 600
+//@bounded designation table "AB\0CDE\0" (concrete, capacity 16), 3-byte needle in {CDE, ABC (extends an entry), XYZ (absent)}
+//@doc Some((a,b)) => designations[a..b] == needle; "CDE" is found at 3..6 and the table is unchanged; otherwise the needle is appended at 7..10 followed by NUL; the first 7 bytes never change; never None
+#[kani::proof]
+#[kani::unwind(12)]
+fn c18_designation_len3() {
+    let mut tz = mk("AB\0CDE\0");
+    let which: u8 = kani::any(); kani::assume(which < 3);
+    let needle = match which { 0 => "CDE", 1 => "ABC", _ => "XYZ" };
+    let r = tz.find_or_create_designation(needle);
+    match r {
+        Some((a, b)) => {
+            let (a, b) = (usize::from(a), usize::from(b));
+            assert!(&tz.fixed.designations[a..b] == needle);
+            if which == 0 { assert!(a == 3 && b == 6 && tz.fixed.designations.len() == 7); }
+            else { assert!(a == 7 && b == 10 && tz.fixed.designations.len() == 11 && tz.fixed.designations.as_bytes()[10] == 0); }
+            assert!(&tz.fixed.designations[..7] == "AB\0CDE\0");
         }
         None => assert!(false),
     }
